@@ -12,7 +12,7 @@ pub fn props() -> Vec<Prop> {
             id: "C09",
             run: c09,
             tools: None,
-            rule: "relational before/after oracle (no reference model): for every reference state of the bounded namespace (names {a,b}, depth 2; up to a state cap) x every ordered pair of paths (existing or not, nested or not, files / dirs / links, plus '/') x Copier options {none, chmod_all, chmod_dirs, chmod_files} x follow for copy, and x move_p: the complete snapshot before and after the call must satisfy the clauses of the statement (source untouched; every source entry present under dst or dst/<name> with same kind, bytes, link target; mode equal to the source's or the selected option for newly created entries; pre-existing entries kept; nothing outside the destination changed; no aliasing (write one side, re-read the other); move: source gone, destination == former subtree, rest unchanged; failed move: nothing changed). Memfs exhaustively, Stdfs on C02's domain through the std::fs disk observer. distinct_nontrivial = distinct (backend, operation, source class, destination class, relation, options, outcome) tuples.",
+            rule: "relational before/after oracle (no reference model): for every reference state of the bounded namespace (names {a,b}, depth 2; up to a state cap) x every ordered pair of paths (existing or not, nested or not, files / dirs / links, plus '/') x Copier options {none, chmod_all, chmod_dirs, chmod_files} x follow for copy, and x move_p: the complete snapshot before and after the call must satisfy the clauses of the statement (source untouched; every source entry present under dst or dst/<name> with same kind, bytes, link target; mode equal to the source's or the selected option for newly created entries; pre-existing entries kept; nothing outside the destination changed; no aliasing (write one side, re-read the other); move: source gone, destination == former subtree, rest unchanged; failed move: nothing changed). Memfs exhaustively, Stdfs on C02's domain through the std::fs disk observer. distinct_nontrivial = distinct (backend, operation, source class, destination class, relation, options, outcome) tuples. Later additions: sequences of chmod_* calls on one builder (the documented 'last call wins'); a copy whose destination root is the source root must change nothing; signatures of follow-copies carry +srclinks when the followed source tree contains links (recorded finding).",
             assumptions: &["owners are not part of the copy relation (the statement does not mention them)", "copy under follow of a dangling link is not judged", "the Stdfs half skips copies of a directory into its own subtree (recorded under C02)"],
             shards_quick: 8,
             shards_thorough: 16,
@@ -25,7 +25,7 @@ pub fn props() -> Vec<Prop> {
             id: "C10",
             run: c10,
             tools: None,
-            rule: "for every (link position, target position) pair over 2 names up to depth 4 (quick) / 6 (thorough), target kind in {file, dir, absent, link-to-file, link-to-dir}, and both spellings of the target (absolute, relative to the link's directory): a fresh filesystem is prepared, symlink(link, target) is called and the laws of the statement are checked through the API (readlink_abs == abs(target); clean(dir(link)/readlink) == readlink_abs and readlink relative; is_symlink && !is_file && !is_dir; is_symlink_dir/file == kind of the target at creation; entry()/follow(true) swaps path and alt exactly once; remove / chmod / chown without follow act on the link and leave the target's snapshot unchanged; readlink/readlink_abs fail on every non-link). Both backends; on Stdfs additionally std::fs::read_link resolves to the same target. distinct_nontrivial = distinct (backend, depth(link), depth(target), relation, target kind, spelling) tuples.",
+            rule: "for every (link position, target position) pair over 2 names up to depth 4 (quick) / 6 (thorough), target kind in {file, dir, absent, link-to-file, link-to-dir}, and both spellings of the target (absolute, relative to the link's directory): a fresh filesystem is prepared, symlink(link, target) is called and the laws of the statement are checked through the API (readlink_abs == abs(target); clean(dir(link)/readlink) == readlink_abs and readlink relative; is_symlink && !is_file && !is_dir; is_symlink_dir/file == kind of the target at creation; entry()/follow(true) swaps path and alt exactly once; remove / chmod / chown without follow act on the link and leave the target's snapshot unchanged; readlink/readlink_abs fail on every non-link). Both backends; on Stdfs additionally std::fs::read_link resolves to the same target. distinct_nontrivial = distinct (backend, depth(link), depth(target), relation, target kind, spelling) tuples. Later additions: clone()/upcast() of a followed entry; a second symlink() for the occupied location under six spellings of the link path (refused and unchanged, or Ok and the law holds for the new target); chown_b / chmod_b on the link with every recursion setting; on Stdfs the target-recording clauses for every target kind.",
             assumptions: &["on Stdfs, for targets that are missing or links themselves, the target-recording clauses (readlink_abs, the readlink navigation law, entry path/alt) are judged; the kind flags and the acts-on-the-link clauses only inside C02's domain", "readlink may be absolute only when the target is the link's own directory (C16)", "the Stdfs half runs as root (chown must be able to succeed)"],
             shards_quick: 8,
             shards_thorough: 16,
@@ -38,7 +38,7 @@ pub fn props() -> Vec<Prop> {
             id: "C11",
             run: c11,
             tools: None,
-            rule: "oracle 1: reference evaluation of the documented grammar [dfa]:[ugoa]+[-+=][rwx]+ (comma repeatable) against chmod_b(p).sym(expr).exec() + mode(p) on a file, a directory and a link for every well-formed single clause (945) x 64 (quick) / all 512 (thorough) start modes, double clauses (sample / all first x 64 second), clearly malformed expressions (error and mode unchanged), octal all/dirs/files; type bits unchanged; is_exec/is_readonly == predicates on mode(). oracle 2: for reference states of the bounded namespace x builder option records (all/dirs/files octal, sym, recurse/no_recurse, follow; chown uid/gid/owner, recurse, follow) the complete post snapshot must equal the reference's changed-set (exactly the targeted entries, symlinks themselves never change under chmod). Memfs exhaustively; Stdfs (as root) on C02's domain. distinct_nontrivial = distinct (backend, clause shape or option record class, entry kind, outcome class) tuples.",
+            rule: "oracle 1: reference evaluation of the documented grammar [dfa]:[ugoa]+[-+=][rwx]+ (comma repeatable) against chmod_b(p).sym(expr).exec() + mode(p) on a file, a directory and a link for every well-formed single clause (945) x 64 (quick) / all 512 (thorough) start modes, double clauses (sample / all first x 64 second), clearly malformed expressions (error and mode unchanged), octal all/dirs/files; type bits unchanged; is_exec/is_readonly == predicates on mode(). oracle 2: for reference states of the bounded namespace x builder option records (all/dirs/files octal, sym, recurse/no_recurse, follow; chown uid/gid/owner, recurse, follow) the complete post snapshot must equal the reference's changed-set (exactly the targeted entries, symlinks themselves never change under chmod). Memfs exhaustively; Stdfs (as root) on C02's domain. distinct_nontrivial = distinct (backend, clause shape or option record class, entry kind, outcome class) tuples. Later additions: octal values that coincide with a link's nominal mode and the default modes (0777, 0755, 0644).",
             assumptions: &[
                 "expressions the implementation accepts although the strict grammar rejects them (repeated target letters, empty target) are not generated; malformed = missing ':' / operator / permissions or unknown letters",
                 "a malformed later clause is not judged (the statement only fixes the first clause)",
